@@ -138,7 +138,11 @@ def to_impl(s):
         return GeoPoint(c(s.pts[0]), dt=dt)
     if s.kind == 'line':
         return GeoLineString([c(p) for p in s.pts], dt=dt)
-    holes = [GeoPolygon([c(p) for p in h]) for h in s.rawholes] or None
+    # hole objects may carry time bounds of their own; the spatial predicates must not look at them either (seeded
+    # change C02-n3 routed the "surrounds a hole" guard through the time-aware `in`): whenever the shape is time-bounded
+    # its holes get an instant that no other shape of the streams has
+    hole_dt = (EPOCH + timedelta(days=11111)) if dt is not None else None
+    holes = [GeoPolygon([c(p) for p in h], dt=hole_dt) for h in s.rawholes] or None
     if s.kind == 'box':
         return GeoBox(c(s.nw), c(s.se), holes=holes, dt=dt)
     return GeoPolygon([c(p) for p in s.raw], holes=holes, dt=dt)
